@@ -117,3 +117,27 @@ func (v *VIntPool) Reset() { v.p.Reset() }
 func (v *VIntPool) State() (pool []uint32, next, avail uint32, capacity int) {
 	return append([]uint32{}, v.p.pool...), v.p.next, v.p.available, cap(v.p.pool)
 }
+
+// VResources wraps Resources.
+type VResources struct{ r Resources }
+
+// NewVResources calls newResources.
+func NewVResources() *VResources { return &VResources{newResources()} }
+
+// Add calls Resources.Add.
+func (v *VResources) Add(i uint8, x any) { v.r.Add(ResID{id: i}, x) }
+
+// Remove calls Resources.Remove.
+func (v *VResources) Remove(i uint8) { v.r.Remove(ResID{id: i}) }
+
+// Get calls Resources.Get.
+func (v *VResources) Get(i uint8) any { return v.r.Get(ResID{id: i}) }
+
+// Has calls Resources.Has.
+func (v *VResources) Has(i uint8) bool { return v.r.Has(ResID{id: i}) }
+
+// Reset calls Resources.reset.
+func (v *VResources) Reset() { v.r.reset() }
+
+// State returns the slots.
+func (v *VResources) State() []any { return append([]any{}, v.r.resources...) }
